@@ -12,6 +12,25 @@ CLAIMED = {
                 note='trusted: SimFS model of open/flock/unlink/close semantics (differentially tested against tmpfs), '
                      'pre-emption only at seam calls, CPython refcounting for descriptor lifetime',
                 technique='deterministic simulation: baton-passing scheduler over real threads + in-memory POSIX fs with flock, seeded schedule search, process-kill injection'),
+    'C05': dict(level='exploration', ref='DESIGN.md 6.1',
+                text='seeded histories of store / bulk store / load / bulk load / is_cached / remove / reopen over addresses '
+                     'chosen to collide in every backend (level 0, bundle borders, path digit groups, equal x/y at different '
+                     'levels, dimension values, shared single-colour links), real backend objects compared operation by '
+                     'operation and by full-pool sweeps with a dict reference model; separate I/O-fault configuration '
+                     '(EIO/ENOSPC/EACCES/short write inside a mutating call) for the file and compact backends on SimFS.',
+                note='trusted: SimFS for file/compact backends; sqlite-based backends run on a real tmpfs directory outside the '
+                     'simulator (sequential, fault-free only); sampling of histories, not exhaustive',
+                technique='deterministic simulation: model-based history checking against a reference map on a simulated file system with I/O-fault injection'),
+    'C06': dict(level='fault_enumeration', ref='DESIGN.md 6.2',
+                text='for each seeded history (prior contents + one victim store on file / compact v1,v2 / legend / seed-progress '
+                     'storage) the real store runs once on SimFS under the real CPython buffering while every mutating raw '
+                     'operation is journalled; every journal prefix, and every 4096-aligned tear of every write, is '
+                     'reconstructed and read back through a fresh cache object (thorough: all crash points of each history; '
+                     'quick: a seeded sample of 10 per history). Oracle: old / complete new / allowed-missing, never '
+                     'truncated or foreign bytes, bystanders unchanged, store works again after restart.',
+                note='trusted: process-death crash model (page-cache survives, syscalls ordered, page-granular tears), SimFS '
+                     'journal replay; histories are sampled, crash points per history are enumerated',
+                technique='deterministic simulation: journalled simulated file system, enumeration of crash prefixes and torn writes, restart through fresh objects'),
 }
 
 NA = {
@@ -27,7 +46,7 @@ NA = {
     'C18': 'well-formedness/escaping of responses is a function of the request bytes',
 }
 
-PENDING = ['C05', 'C06', 'C08', 'C11', 'C12', 'C13', 'C15', 'C19', 'C20']
+PENDING = ['C08', 'C11', 'C12', 'C13', 'C15', 'C19', 'C20']
 
 
 def main():
